@@ -120,6 +120,15 @@ def run(F, R, tier):
                         split_cond(clo["body"]["value"], True, conds)
                         ok = any(x.kind == "cond" and not x.pol and x.node.get("name") == "contains_key" and peel(x.node["recv"]).get("field") == "imports" for x in conds)
     R.ob("C19-b", "only configured imports the graph does not have yet are processed", ok, "imports are not filtered by !graph.imports.contains_key(referrer)", bd["file"])
+    if fors:
+        bad, _ = must_pass(F, fors[0]["body"], lambda n: callee_matches(n, ["Builder::load"]), exit_kinds=("fallthrough", "continue", "break", "return"))
+        R.ob("C19-b", "every new root is handed to the loader (which decides about existing slots itself)", not bad,
+             "an iteration of the root loop can skip Builder::load: a new root whose slot exists only as an external asset entry would never be loaded as a module", where(bad[0][1]) if bad else "")
+    rq = F.body("graph::Builder::resolve_pending_jsr_specifiers")
+    pops = [n for n in rq["_nodes"] if n.get("k") == "MethodCall" and n["name"] == "pop_front" and tyc(F, n["recv"], "VecDeque<graph::PendingJsrReqResolutionItem>")]
+    requeue = [n for n in rq["_nodes"] if n.get("k") == "MethodCall" and n["name"] in ("push_front", "push_back") and tyc(F, n["recv"], "VecDeque<graph::PendingJsrReqResolutionItem>") and any(peel(x.get("recv", {})).get("lid") == peel(n["recv"]).get("lid") for x in pops)]
+    R.ob("C19-b", "a requirement retried after a metadata reload keeps its place in the resolution order", len(pops) == 1 and len(requeue) == 1 and requeue[0]["name"] == "push_front",
+         "the retried requirement is re-queued with %s: it would be resolved after the requirements that followed it, and version unification (order dependent) differs from a from-scratch build" % ([r_["name"] for r_ in requeue] or "nothing"), rq["file"])
     for nm in ("Builder::handle_provided_imports", "Builder::resolve_pending"):
         bad, _ = must_pass(F, bd["body"]["value"], lambda n, nm=nm: callee_matches(n, [nm]))
         R.ob("C19-b", "every build passes %s (also when no new root was given)" % nm.split("::")[-1], not bad,
